@@ -63,7 +63,16 @@ class OracleMixin:
                 if inv.k >= tot:
                     self.violate("C04.count", f"pool {pr.idx}: invocation #{inv.k + 1} but only {tot} were requested by start()")
         else:
-            i, ok = self.elem_index(req, inv.args, inv.kwargs)
+            if req.empties and not inv.args and not inv.kwargs:
+                # an empty element: func() - identified by its position in the element order
+                prev = [v.elem for v in req.invs[:-1] if v.elem is not None]
+                i = (prev[-1] if prev else -1) + 1
+                while i in req.bad:
+                    i += 1
+                ok = i in req.empties
+                self.sit["C05.empty_element"] += 1
+            else:
+                i, ok = self.elem_index(req, inv.args, inv.kwargs)
             inv.elem = i
             if not ok:
                 self.violate("C05.unpack", f"{req.kind} request {req.idx}: func received args={inv.args} kwargs={inv.kwargs}")
